@@ -57,7 +57,7 @@ CUSTOM = {'cust_a': cust_a, 'cust_b': cust_b, 'cust_t': cust_t}
 
 def cases(tier, sd):
     rng = np.random.default_rng([int(sd), 14])
-    n = 40 if tier == "quick" else 300
+    n = 40 if tier == "quick" else 800
     out = []
     for i in range(n):
         steps = int(rng.integers(1, 6))
